@@ -481,18 +481,26 @@ func (m *monitor) runFaultInner(c *caseCtx, base *world) {
 		}
 	} else {
 		sample["op_error"] = fmt.Sprint(out.Err)
+		var dSame *ksdump.Dump
 		if out.Err != nil {
 			r.Count("error_returns", 1)
 			// the process lives on: same handle
-			d := h.dump(allClients)
+			dSame = h.dump(allClients)
 			r.Count("error_returns_probed_same_handle", 1)
-			m.check(c, "after-error(same-handle)", d, w)
+			if j.kind == "v1" && j.cache > 0 {
+				r.Count("error_returns_probed_same_handle_lru_cache", 1)
+			}
+			m.check(c, "after-error(same-handle)", dSame, w)
 		} else {
 			r.Count("fault_absorbed_op_succeeded", 1)
 		}
 		hp := w.openPlain()
 		d := hp.dump(allClients)
 		hp.close()
+		if dSame != nil {
+			// what the handle that saw the failure hands out must be the old key or what the storage holds now
+			m.checkSameHandleAgainstStorage(c, "after-error(same-handle)", dSame, d, w)
+		}
 		outcome := m.check(c, "after-error(fresh-handle)", d, w)
 		sample["after_fault"] = outcome
 		if j.op.kind == kDestroyRotated {
